@@ -147,8 +147,15 @@ def readcodescilab_complex(numtype, shape, endianness,
                          endianness=endianness,
                          filepath=filepath, varname=varname)
     dimstr = ",:" * ndim
-    ct += f'{varname} = complex(squeeze({varname}(1{dimstr})),squeeze' \
-          f'({varname}(2{dimstr})));\n'
+    if ndim == 1:
+        ct += f'{varname} = complex(squeeze({varname}(1{dimstr})),squeeze' \
+              f'({varname}(2{dimstr})));\n'
+    else:
+        # squeeze would also remove dimensions of the array that have
+        # length 1, so we reshape to the known dimensions instead
+        fshape = list(shape)[::-1]
+        ct += f'{varname} = complex(matrix({varname}(1{dimstr}), {fshape}),' \
+              f'matrix({varname}(2{dimstr}), {fshape}));\n'
     return ct
 
 
